@@ -3,6 +3,7 @@ package rules
 import (
 	"fmt"
 	"go/ast"
+	"go/token"
 	"go/types"
 	"strings"
 
@@ -33,10 +34,10 @@ func DirectionCombination(p *core.Program, r *core.Report, rule string) {
 				return true
 			}
 			fn := core.Callee(info, call)
-			if fn == nil || core.RefName(fn) != "allAllowedXgressConnections" || len(call.Args) != 3 {
+			if fn == nil || core.RefName(fn) != "allAllowedXgressConnections" {
 				return true
 			}
-			if v, ok := core.ConstString(info, call.Args[2]); ok {
+			if v, ok := directionConstOfCall(info, fd.Decl.Body, call); ok {
 				if id, ok := as.Lhs[0].(*ast.Ident); ok {
 					if v == "true" {
 						dirVar[info.ObjectOf(id)] = "ingress"
@@ -102,10 +103,10 @@ func DirectionCombination(p *core.Program, r *core.Report, rule string) {
 				return true
 			}
 			fn := core.Callee(info, call)
-			if fn == nil || core.RefName(fn) != "allowedXgressConnection" || len(call.Args) < 3 {
+			if fn == nil || core.RefName(fn) != "allowedXgressConnection" {
 				return true
 			}
-			if v, ok := core.ConstString(info, call.Args[2]); ok {
+			if v, ok := directionConstOfCall(info, fd.Decl.Body, call); ok {
 				if id, ok := as.Lhs[0].(*ast.Ident); ok {
 					vv, _ := info.ObjectOf(id).(*types.Var)
 					if v == "true" {
@@ -658,4 +659,44 @@ func PartitionCompleteness(p *core.Program, r *core.Report, rule string) {
 		return true
 	})
 	r.Check(usesCidr && usesExcept, rule+"-parse", parse.Key()+": block = IPBlockFromCidr(cidr).ExceptCidrs(except...)", p.Pos(parse.Decl.Pos()), "both parameters reach the library constructors", "the rule block no longer depends on both the cidr and the except list")
+}
+
+// directionConstOfCall finds THE constant boolean a call hands to its callee as the direction: the one boolean constant
+// among its arguments, or among the fields of a struct literal it passes (a parameter object, directly or named by a
+// local first). Position and spelling of the parameter do not matter; two boolean constants are ambiguous (not found).
+func directionConstOfCall(info *types.Info, scope ast.Node, call *ast.CallExpr) (string, bool) {
+	var found []string
+	isBoolConst := func(e ast.Expr) (string, bool) {
+		if v, ok := core.ConstString(info, e); ok && (v == "true" || v == "false") {
+			if b, isB := info.TypeOf(e).Underlying().(*types.Basic); isB && b.Info()&types.IsBoolean != 0 {
+				return v, true
+			}
+		}
+		return "", false
+	}
+	for _, a := range call.Args {
+		if v, ok := isBoolConst(a); ok {
+			found = append(found, v)
+			continue
+		}
+		x := ast.Unparen(ResolveLocal(info, scope, a))
+		if u, ok := x.(*ast.UnaryExpr); ok && u.Op == token.AND {
+			x = ast.Unparen(u.X)
+		}
+		if cl, ok := x.(*ast.CompositeLit); ok {
+			for _, el := range cl.Elts {
+				val := el
+				if kv, isKV := el.(*ast.KeyValueExpr); isKV {
+					val = kv.Value
+				}
+				if v, ok := isBoolConst(val); ok {
+					found = append(found, v)
+				}
+			}
+		}
+	}
+	if len(found) == 1 {
+		return found[0], true
+	}
+	return "", false
 }
